@@ -1,13 +1,135 @@
-(* Props/C07.v -- property C07 (provisional instance; the general theorems are being added) *)
-From Coq Require Import NArith List.
-From RP Require Import Base.Bits Gen.GenPerm Model.Codec Model.Evaluator Model.Equity Spec.SpecIso.
+(* Props/C07.v -- property C07: river equity (Observation::equity, src/cards/observation.rs) and the
+   turn histogram (Histogram::from, src/clustering/histogram.rs) are well defined, count what they
+   should count, lie in range, and do not depend on the names of the four suits.
+   Statements use only Base/ Gen/ Model/ Spec/ definitions; proofs live in Proofs/C07_*.v. *)
+From Coq Require Import NArith ZArith QArith List Bool Sorted.
+From RP Require Import Base.Bits Gen.GenPerm Model.Codec Model.Evaluator Model.Equity.
+From RP Require Import Spec.SpecCodec Spec.SpecPoker Spec.SpecStrength Spec.SpecIso Spec.SpecIsoWf
+  Spec.SpecCombs Spec.SpecEquity.
+From RP Require Proofs.C07_Counts Proofs.C07_Relabel Proofs.C07_Invariant Proofs.C07_Hist Proofs.C07_Examples
+  Proofs.C05_Examples.
 Import ListNotations.
 Open Scope N_scope.
-Definition c (r s : N) : N := 4 * r + s.
-(* hero As Ks on Qs Js Ts 2d 3c holds the nuts: wins against every holding; the same under every relabeling *)
-Definition ex_river := mkObs (mask_of_bits [c 12 3; c 11 3]) (mask_of_bits [c 10 3; c 9 3; c 8 3; c 0 1; c 1 0]).
-Theorem C07_nuts_instance :
-  equity_counts Standard ex_river = Some (990, 990) /\
-  forallb (fun p => match equity_counts Standard (relabel_obs p ex_river) with Some (990, 990) => true | _ => false end) EXHAUST = true.
-Proof. vm_compute. split; reflexivity. Qed.
-Print Assumptions C07_nuts_instance.
+
+(* ---------- 1. equity_counts never fails on a well-formed river observation ---------- *)
+Theorem C07_counts_defined : forall d o, wf_obs_d d o -> hand_size (public o) = 5 ->
+  exists w n, equity_counts d o = Some (w, n).
+Proof. exact C07_Counts.counts_defined. Qed.
+Print Assumptions C07_counts_defined.
+Example C07_river_hyp :
+  (wf_obs_d Standard C07_Examples.royal_std /\ hand_size (public C07_Examples.royal_std) = 5) /\
+  (wf_obs_d Short C07_Examples.royal_short /\ hand_size (public C07_Examples.royal_short) = 5) /\
+  (wf_obs_d Standard C05_Examples.ex_std /\ hand_size (public C05_Examples.ex_std) = 5) /\
+  (wf_obs_d Short C05_Examples.ex_short /\ hand_size (public C05_Examples.ex_short) = 5).
+Proof.
+  exact (conj C07_Examples.royal_std_hyp (conj C07_Examples.royal_short_hyp C07_Examples.ex_river_hyp)).
+Qed.
+
+(* ---------- 2. what the two counts are ---------- *)
+(* holdings d o: every two-card hand of unseen cards; showdown d o v: cmp_strength of hero's seven cards
+   against the board plus v.  wins = #{v : hero > villain}, decided = #{v : hero <> villain};
+   hence wins <= decided <= #holdings = C(deck - 7, 2) *)
+Theorem C07_counts_meaning : forall d o w n, wf_obs_d d o -> hand_size (public o) = 5 ->
+  equity_counts d o = Some (w, n) ->
+  w = N.of_nat (length (filter (hero_wins d o) (holdings d o))) /\
+  n = N.of_nat (length (filter (hero_decided d o) (holdings d o))) /\
+  w <= n /\ n <= N.of_nat (length (holdings d o)) /\
+  N.of_nat (length (holdings d o)) = choose (deck_size d - 7) 2.
+Proof. exact C07_Counts.counts_meaning. Qed.
+Print Assumptions C07_counts_meaning.
+Example C07_counts_examples :
+  (equity_counts Standard C07_Examples.royal_std = Some (990, 990) /\
+   equity_counts Short C07_Examples.royal_short = Some (406, 406)) /\
+  equity_counts Standard C05_Examples.ex_std = Some (600, 984) /\
+  equity_counts Short C05_Examples.ex_short = Some (24, 397) /\
+  length (holdings Standard C05_Examples.ex_std) = 990%nat /\
+  length (holdings Short C05_Examples.ex_short) = 406%nat.
+Proof. exact (conj C07_Examples.royal_counts C07_Examples.ex_river_counts). Qed.
+
+(* every showdown that enters the counts is defined, between two valid seven-card hands, and is the
+   rule-book comparison (cmp_spec of property C01) of the two hands *)
+Theorem C07_showdown_spec : forall d o v, wf_obs_d d o -> hand_size (public o) = 5 -> In v (holdings d o) ->
+  showdown d o v = Some (cmp_spec d (hand_cards (hero_hand o)) (hand_cards (villain_hand o v))).
+Proof. exact C07_Counts.showdown_spec_wf. Qed.
+Print Assumptions C07_showdown_spec.
+
+Corollary C07_range_standard : forall o w n, wf_obs_d Standard o -> hand_size (public o) = 5 ->
+  equity_counts Standard o = Some (w, n) -> w <= n /\ n <= 990.
+Proof. exact C07_Counts.range_standard. Qed.
+Print Assumptions C07_range_standard.
+Corollary C07_range_short : forall o w n, wf_obs_d Short o -> hand_size (public o) = 5 ->
+  equity_counts Short o = Some (w, n) -> w <= n /\ n <= 406.
+Proof. exact C07_Counts.range_short. Qed.
+Print Assumptions C07_range_short.
+
+(* ---------- 3. the equity is a number between 0 and 1 ---------- *)
+Theorem C07_equity_unit : forall d o w n, wf_obs_d d o -> hand_size (public o) = 5 ->
+  equity_counts d o = Some (w, n) -> (0 <= equity_Q (w, n) <= 1)%Q.
+Proof. exact C07_Counts.equity_unit. Qed.
+Print Assumptions C07_equity_unit.
+Example C07_equity_examples :
+  (equity_Q (600%N, 984%N) == 25 # 41)%Q /\ (equity_Q (990%N, 990%N) == 1)%Q /\ (equity_Q (0%N, 0%N) == 1 # 2)%Q.
+Proof. exact C07_Examples.ex_river_equity. Qed.
+
+(* ---------- 4. relabeling the suits changes nothing ---------- *)
+Theorem C07_suit_invariant : forall d p o, wf_obs_d d o -> hand_size (public o) = 5 -> In p EXHAUST ->
+  equity_counts d (relabel_obs p o) = equity_counts d o.
+Proof. exact C07_Invariant.suit_invariant. Qed.
+Print Assumptions C07_suit_invariant.
+Example C07_suit_invariant_hyp :
+  In C05_Examples.ex_perm EXHAUST /\ relabel_obs C05_Examples.ex_perm C05_Examples.ex_std <> C05_Examples.ex_std /\
+  equity_counts Standard (relabel_obs C05_Examples.ex_perm C05_Examples.ex_std) = Some (600, 984).
+Proof. exact C07_Examples.ex_relabel_moves. Qed.
+
+(* the villain holdings of the relabeled observation are the relabeled villain holdings *)
+Theorem C07_holdings_relabel : forall d p o, wf_obs_d d o -> hand_size (public o) = 5 -> In p EXHAUST ->
+  Permutation.Permutation (holdings d (relabel_obs p o)) (map (relabel_hand p) (holdings d o)).
+Proof. exact C07_Invariant.holdings_relabel_wf. Qed.
+Print Assumptions C07_holdings_relabel.
+
+(* hence any bucket computed from the two counts is the same *)
+Theorem C07_bucket_invariant : forall (bucket_of : N * N -> N) d p o,
+  wf_obs_d d o -> hand_size (public o) = 5 -> In p EXHAUST ->
+  option_map bucket_of (equity_counts d (relabel_obs p o)) = option_map bucket_of (equity_counts d o) /\
+  bucket_of (counts_or_zero d (relabel_obs p o)) = bucket_of (counts_or_zero d o).
+Proof. exact C07_Invariant.bucket_invariant. Qed.
+Print Assumptions C07_bucket_invariant.
+
+(* ---------- 5. the turn histogram ---------- *)
+(* defined; it is the count list of the buckets of the river successors, each of which is a well-formed
+   river observation with defined counts; there are (deck - 6) successors *)
+Theorem C07_histogram_meaning : forall bucket_of d o, wf_obs_d d o -> hand_size (public o) = 4 ->
+  turn_histogram bucket_of d o
+  = Some (hist_of (map (fun o' => bucket_of (counts_or_zero d o')) (river_successors d o))) /\
+  (forall o', In o' (river_successors d o) ->
+     wf_obs_d d o' /\ hand_size (public o') = 5 /\ equity_counts d o' = Some (counts_or_zero d o')) /\
+  N.of_nat (length (river_successors d o)) = choose (deck_size d - 6) 1.
+Proof. exact C07_Invariant.histogram_meaning. Qed.
+Print Assumptions C07_histogram_meaning.
+
+(* the count list: keys strictly increasing; (k, c) is an entry iff k occurs c > 0 times *)
+Theorem C07_hist_of_spec : forall ks,
+  StronglySorted (fun a b => fst a < fst b) (hist_of ks) /\
+  (forall k c, In (k, c) (hist_of ks) <-> (c = occurrences k ks /\ 0 < c)).
+Proof. exact C07_Hist.hist_of_spec. Qed.
+Print Assumptions C07_hist_of_spec.
+(* ... so it depends on the multiset of keys only *)
+Theorem C07_hist_of_perm : forall l l', Permutation.Permutation l l' -> hist_of l = hist_of l'.
+Proof. exact C07_Invariant.hist_of_perm. Qed.
+Print Assumptions C07_hist_of_perm.
+
+Theorem C07_histogram_invariant : forall bucket_of d p o, wf_obs_d d o -> hand_size (public o) = 4 ->
+  In p EXHAUST -> turn_histogram bucket_of d (relabel_obs p o) = turn_histogram bucket_of d o.
+Proof. exact C07_Invariant.histogram_invariant. Qed.
+Print Assumptions C07_histogram_invariant.
+Example C07_turn_hyp :
+  (wf_obs_d Short C05_Examples.ex_turn_short /\ hand_size (public C05_Examples.ex_turn_short) = 4) /\
+  (wf_obs_d Standard C07_Examples.ex_turn_std /\ hand_size (public C07_Examples.ex_turn_std) = 4).
+Proof. exact C07_Examples.ex_turn_hyp. Qed.
+Example C07_histogram_examples :
+  turn_histogram C07_Examples.ex_bucket Short C05_Examples.ex_turn_short
+    = Some [(0, 5); (1, 11); (3, 11); (6, 3)] /\
+  turn_histogram C07_Examples.ex_bucket Standard C07_Examples.ex_turn_std
+    = Some [(3, 4); (4, 28); (5, 1); (6, 8); (9, 5)] /\
+  relabel_obs C05_Examples.ex_perm C05_Examples.ex_turn_short <> C05_Examples.ex_turn_short.
+Proof. exact C07_Examples.ex_turn_histograms. Qed.
